@@ -339,8 +339,8 @@ def check2(prop, tier, seed, plugin, report, driver, t0):
     rng = random.Random(seed)
     # ---- case stream: corpus, then generated
     cases = []
-    corpus = os.path.join(ROOT, 'corpus', prop + '.ops')
-    if os.path.exists(corpus):
+    import glob
+    for corpus in sorted(glob.glob(os.path.join(ROOT, 'corpus', prop + '*.ops'))):
         for l in open(corpus):
             l = l.strip()
             if l and not l.startswith('#'): cases.append((l, 'corpus'))
